@@ -17,6 +17,9 @@ CLAIMS = {
          "Coq proof (CRC linearity, codec canonical form) + exhaustive single-byte sweeps", "DESIGN 5/C09"),
  "C10": ("Theorems: every cut of a clean newest chunk is 'complete records + torn record'; for every such tail and every zero tail of any length, with truncation enabled open succeeds with exactly the complete records replayed, the file cut back and a fresh chunk at the cut (or the record-less file removed), with truncation disabled open fails and the directory is untouched. All cut positions and zero tails of generated images run on implementation and model.",
          COMMON_NOTE, "Coq proof (scan/recovery lemmas) + exhaustive cut/zero-tail sweeps", "DESIGN 5/C10"),
+ "C11": ("Theorems: a structural invariant of every reachable state (file names are global offsets, files abut, every file is a sequence of well-formed records headed by the closing state of its predecessor, chunk offset tables are those of the records, index entries point at their own Append record); an accepted record appends exactly its encoding, the returned segment locates it, a rotation starts a file named by the end offset holding the state snapshot; rotation exactly at the limit (0 and 1 included); on_disk_size; after flush + idle the directory is the logical journal. Differential histories incl. raw file bytes, and an independent decoder checking layout, call order, segments and rotation discipline on the implementation's files.",
+         COMMON_NOTE + "Restarts are not covered by C11_invariant (see C02). The file-name codec theorems (round trip, order) are proved for the model in Model/Names.v.",
+         "Coq invariant proof + raw-byte differential histories + independent decoder oracle", "DESIGN 5/C11"),
  "C12": ("Machine-checked theorems about the Gallina codec (round trip with any tail, canonical form, no over-read, consumed = reported size, every proper prefix of an encoding decodes to UnexpectedEof, totality); tied to the crate by differential encoding/decoding of structured records and a malformed byte stream; the property is also evaluated directly on the implementation.",
          COMMON_NOTE + "Record lengths < 2^32 (the encoder truncates the length with `as u32`, stated as wf_bytes).",
          "Coq proof (codec combinator contract) + differential correspondence", "DESIGN 5/C12"),
